@@ -86,13 +86,13 @@ class C10(CheckBase):
             data = data[:image['cut_sectors'] * 256]
         return data
 
-    def launch(self, ctx, out, case, files, name, faults=(), ref=False, steps=200000):
+    def launch(self, ctx, out, case, files, name, faults=(), ref=False, steps=60000):
         sb = ctx.sb
         f = dict(files)
         f['out'] = None
         sb.reset(f)
         argv = ['dfs', '--file', name] + case['globals'] + case['cmd']
-        r = ctx.sk.run(sb, ctx.exe('rel', 'dfs'), argv, faults=faults, steps=steps, wall_ms=60000 if steps > 200000 else 10000)
+        r = ctx.sk.run(sb, ctx.exe('rel', 'dfs'), argv, faults=faults, steps=steps, wall_ms=60000 if steps > 200000 else 5000)
         out.add_run(r, ref=ref)
         r['snapshot'] = sb.snapshot('out')
         return r
@@ -127,7 +127,7 @@ class C10(CheckBase):
             if fault == 'rchunk':
                 flt = [{'op': 'rchunk', 'target': 'in:' + gzname, 'seed': case['chunk']['seed'], 'max': case['chunk']['max']}]
             # one-byte reads of a large file are legal but need a larger step budget
-            r = self.launch(ctx, out, case, {gzname: G}, gzname, faults=flt, steps=200000 + 3 * len(G))
+            r = self.launch(ctx, out, case, {gzname: G}, gzname, faults=flt, steps=260000 + 3 * len(G))
             if fault == 'rchunk':
                 out.fault('rchunk', r.fired() > 0)
             out.sig(cont, case['cmd'][0], fault, 'valid', r.exit_class(), r['log_hash'])
@@ -163,8 +163,13 @@ class C10(CheckBase):
                 if len(G) > 8192:
                     step = max(step, len(G) // 2048)
                 out.probe('enumerated-every-truncation-point' if step == 1 else 'enumerated-strided-truncation')
+                bad = 0
                 for k in range(1, len(G), step):
-                    self.medium(ctx, out, case, dict(atom, fault='trunc', abs=k), ref, X, G[:k], gzname, cont, 'trunc', k)
+                    if self.medium(ctx, out, case, dict(atom, fault='trunc', abs=k), ref, X, G[:k], gzname, cont, 'trunc', k) == 'abnormal':
+                        bad += 1
+                    if bad >= 3 or ctx.expired():
+                        out.probe('enumeration-cut-short')
+                        break
             else:
                 nbits = len(G) * 8
                 if len(G) > 1536:
@@ -174,10 +179,15 @@ class C10(CheckBase):
                 else:
                     step = 1
                 out.probe('enumerated-every-bit' if step == 1 else 'enumerated-strided-bits')
+                bad = 0
                 for b in range(0, nbits, step):
                     D = bytearray(G)
                     D[b // 8] ^= 1 << (b % 8)
-                    self.medium(ctx, out, case, dict(atom, fault='flip', abs=b // 8, bit=b % 8), ref, X, bytes(D), gzname, cont, 'flip', b // 8)
+                    if self.medium(ctx, out, case, dict(atom, fault='flip', abs=b // 8, bit=b % 8), ref, X, bytes(D), gzname, cont, 'flip', b // 8) == 'abnormal':
+                        bad += 1
+                    if bad >= 3 or ctx.expired():
+                        out.probe('enumeration-cut-short')
+                        break
             return out
         # dynamic I/O faults on the intact .gz
         if fault == 'rfail':
@@ -254,8 +264,9 @@ class C10(CheckBase):
             return
         out.probe('stream-invalid:' + fkind.split(':')[0])
         if r.code is None:
-            out.probe('abnormal-termination-on-damaged-stream(C07)')
-            return
+            # neither a crash nor a hang is "rejected with a diagnostic"
+            out.violate('C10.b', '%s: the stream is invalid (%s) but dfs did not reject it: %s' % (what, data, r.exit_class()), dict(desc, how=r.exit_class().split('-')[0]), atom)
+            return 'abnormal'
         if r.code == 0:
             out.violate('C10.b', '%s: the stream is invalid (%s) yet exit status 0' % (what, data), desc, atom)
         elif not r['stderr']:
@@ -263,7 +274,7 @@ class C10(CheckBase):
 
     def group_key(self, v):
         d = v['desc']
-        return (d.get('fault'), d.get('verdict'), d.get('members'))
+        return (d.get('fault'), d.get('verdict'), d.get('members'), d.get('how'))
 
     def shrink(self, case, clause):
         if case['gz'] != {'level': 6}:
